@@ -827,6 +827,29 @@ func ruleTriggerNonblock(c *Ctx, r *Reporter) {
 			case *ssa.Send:
 				if _, ok := loadOfField(x.Chan, "dbState", "gcTrigger"); ok {
 					n++
+					// the first send into a buffered channel this function has just made cannot block
+					fresh := false
+					for _, ib := range allInstrs(fn) {
+						st, ok := ib.In.(*ssa.Store)
+						if !ok || !isFieldAddrOf(st.Addr, "dbState", "gcTrigger") || !instrDominates(st, x) {
+							continue
+						}
+						if mk, ok := st.Val.(*ssa.MakeChan); ok {
+							if k, ok := constInt(mk.Size); ok && k >= 1 {
+								fresh = true
+								// no other send/select-send in between
+								for _, ic := range allInstrs(fn) {
+									if s2, ok := ic.In.(*ssa.Send); ok && s2 != x && instrDominates(st, s2) && instrReaches(s2, x) {
+										fresh = false
+									}
+								}
+							}
+						}
+					}
+					if fresh {
+						r.ok(fmt.Sprintf("%s|send gcTrigger#%d", c.fnName(fn), n), c.posStr(instrPos(x)), "the first send into the buffered channel made by this function")
+						continue
+					}
 					r.bad(fmt.Sprintf("%s|send gcTrigger#%d", c.fnName(fn), n), c.posStr(instrPos(x)), "blocking send on gcTrigger: a consumer marking a tracker while the collector waits for its table lock deadlocks")
 				}
 			case *ssa.Select:
